@@ -340,7 +340,8 @@ pub fn replacement(ch: &mut Chooser, kind: &str, node: &E, node_ty: &T, ctx: &Ct
             let (other, adaptable) = match ctx {
                 Ctx::Operand(op, s) if !matches!(op, BinOp::Shl | BinOp::Shr) => (&s.ty, s.adaptable),
                 Ctx::Compared(s) | Ctx::Arm(s) | Ctx::MinMax(s) => (&s.ty, s.adaptable),
-                Ctx::Elem(t) => (t, false),
+                // the other elements may be integer constants, which adapt to uint
+                Ctx::Elem(t) => (t, true),
                 _ => return None,
             };
             if !is_numeric(other) || !is_numeric(node_ty) {
